@@ -18,9 +18,10 @@ MODES = ('uncompressed', 'compressed')
 
 
 class BitIO(Native):
-    def __init__(self, kind):
+    def __init__(self, kind, reads=None):
         self.kind = kind        # 'r' | 'w'
         self.n = 0
+        self.reads = list(reads or [])   # optional concrete values for the first reads
 
     def __repr__(self):
         return 'BitIO(%s)' % self.kind
@@ -29,6 +30,8 @@ class BitIO(Native):
         self.n += 1
         k = len([e for e in interp.path.events if e[0] == 'io'])
         interp.event('io', name, list(args), interp.where(node, frame))
+        if name.startswith('read') and self.reads:
+            return self.reads.pop(0)
         if name.startswith('read') or name == 'get_pos':
             return Sym('io%d' % k)
         if name.startswith('write') and args:
@@ -288,7 +291,7 @@ class PathRec(object):
         return ' ; '.join('%s=%s' % (l, 'T' if c == 0 else 'F') for l, c in self.choices) or '<straight>'
 
 
-def run_primitive(repo, coder, meth, is_compressed=None):
+def run_primitive(repo, coder, meth, is_compressed=None, reads=None, params_over=None):
     """All paths of coder.meth under abstract arguments.  Returns (FuncInfo, [PathRec])."""
     fi = repo.method(coder, meth)
     if is_compressed is None:
@@ -304,7 +307,9 @@ def run_primitive(repo, coder, meth, is_compressed=None):
             elif p == 'state':
                 loc[p] = make_state(is_compressed)
             elif p in ('bit_reader', 'bit_writer', 'bit_operator'):
-                loc[p] = BitIO('r' if coder == 'Decoder' else 'w')
+                loc[p] = BitIO('r' if coder == 'Decoder' else 'w', reads)
+            elif params_over and p in params_over:
+                loc[p] = params_over[p]
             elif p == 'descriptor':
                 loc[p] = make_descriptor()
             else:
